@@ -830,7 +830,7 @@ fn lift_candidates(t: &Value, f: &str, root: &str, srcs: &[Value], out: &mut Vec
 }
 
 fn gen(seed: u64, size: &str, path: &str) {
-    let n_exec = if size == "thorough" { 1500 } else { 120 };
+    let n_exec = if size == "thorough" { 4000 } else { 250 };
     let mut g = Gen { rng: Rng::new(seed), ch: 1, srcs: Vec::new(), lens: Vec::new(), max_len: 40 };
     let mut execs = Vec::new();
     let x0 = json!({"x": 0});
